@@ -1,2 +1,137 @@
-(* C14 - placeholder while the correspondence is being validated *)
-From GV Require Import Base.Prelude Valid.Overlap Valid.PairSet.
+(* C14 - field-merge validation equals the specification.  Theorems only; proofs in
+   Valid/OverlapProps.v and Valid/PairSetProps.v.
+
+   What is proved here: laws of the two memo tables as the code has them, termination of the
+   specification function on every document (cyclic spreads included), sanity of the
+   specification function.  NOT proved: equivalence of the memoised algorithm (steps A-J of
+   overlapping_fields_can_be_merged.py) with [spec_conflicts]; that algorithm is not modelled
+   in Coq, so no equivalence statement is given; the equivalence is checked by the
+   correspondence run of harness/c14.py (implementation vs extracted [spec_conflicts]). *)
+From GV Require Import Base.Prelude Valid.Overlap Valid.OverlapProps Valid.PairSet Valid.PairSetProps.
+
+(* PairSet: has after add; a non-exclusive entry answers the exclusive and the non-exclusive
+   query, an exclusive entry only the exclusive query; the set is unordered; an addition is
+   invisible to every other unordered pair. *)
+Theorem C14_pairset_laws : forall s a b,
+  (forall e, ps_has (ps_add s a b e) a b e = true) /\
+  (forall q, ps_has (ps_add s a b false) a b q = true) /\
+  (ps_has (ps_add s a b true) a b true = true /\ ps_has (ps_add s a b true) a b false = false) /\
+  (forall e, ps_has s a b e = ps_has s b a e /\ ps_add s a b e = ps_add s b a e) /\
+  (forall e c d q, order c d <> order a b -> ps_has (ps_add s a b e) c d q = ps_has s c d q).
+Proof.
+  intros s a b. repeat split; intros.
+  - apply ps_has_after_add.
+  - apply ps_nonexclusive_answers_both.
+  - apply ps_exclusive_answers_only_exclusive.
+  - apply ps_exclusive_answers_only_exclusive.
+  - apply ps_symmetric.
+  - apply ps_symmetric.
+  - apply ps_add_frame; assumption.
+Qed.
+Print Assumptions C14_pairset_laws.
+
+(* Used as the rule uses it (`if has(..): return` then `add(..)`): an entry never disappears,
+   only moves from exclusive (true) to non-exclusive (false), and no answer once given is
+   ever withdrawn. *)
+Theorem C14_pairset_monotone : forall s c d e a b,
+  (forall r, ps_get s a b = Some r ->
+     exists r', ps_get (ps_record s c d e) a b = Some r' /\ (r = false -> r' = false)) /\
+  (forall q, ps_has s a b q = true -> ps_has (ps_record s c d e) a b q = true).
+Proof.
+  intros. split; intros.
+  - apply ps_record_monotone; assumption.
+  - apply ps_record_keeps_answers; assumption.
+Qed.
+Print Assumptions C14_pairset_monotone.
+
+(* OrderedPairSet: same flag laws; the pair is ordered (first component by identity, second by
+   value): an addition is visible only to queries with the same first and the same second
+   component; under has-then-add an entry never disappears and only moves from true to false. *)
+Theorem C14_ordered_pairset_laws : forall s a b,
+  (forall e, ops_has (ops_add s a b e) a b e = true) /\
+  (forall q, ops_has (ops_add s a b false) a b q = true) /\
+  (ops_has (ops_add s a b true) a b true = true /\ ops_has (ops_add s a b true) a b false = false) /\
+  (forall e c d q, (c, d) <> (a, b) -> ops_has (ops_add s a b e) c d q = ops_has s c d q) /\
+  (forall c d e r, ops_get s a b = Some r ->
+     exists r', ops_get (ops_record s c d e) a b = Some r' /\ (r = false -> r' = false)).
+Proof.
+  intros s a b. repeat split; intros.
+  - apply ops_has_after_add.
+  - apply (ops_flag_laws s a b).
+  - apply (ops_flag_laws s a b).
+  - apply (ops_flag_laws s a b).
+  - apply ops_add_frame; assumption.
+  - apply ops_record_monotone; assumption.
+Qed.
+Print Assumptions C14_ordered_pairset_laws.
+
+(* The specification function terminates on every schema and document: with
+   collect_fuel = #fragment definitions and depth_fuel = 2 * #fields^2 + 1 neither fuel is
+   exhausted, whatever the spread graph (cyclic, mutually recursive). *)
+Theorem C14_terminates : forall s d, spec_verdict s d <> VFuel.
+Proof. exact spec_verdict_terminates. Qed.
+Print Assumptions C14_terminates.
+
+(* SameResponseShape on return types is symmetric and reflexive *)
+Theorem C14_shape_symmetric : forall s a b,
+  shape_conflict s a b = shape_conflict s b a /\ shape_conflict s a a = false.
+Proof. intros. split; [apply shape_conflict_sym | apply shape_conflict_refl]. Qed.
+Print Assumptions C14_shape_symmetric.
+
+(* a selection set of plain fields with pairwise distinct response names never conflicts at
+   its own level, whatever the schema, the fragments and the fuels *)
+Theorem C14_distinct_names_never_conflict : forall s frags cf df p ss,
+  fields_only ss -> NoDup (rnames ss) -> check_set s frags cf df p ss = VNo.
+Proof. exact distinct_names_never_conflict. Qed.
+Print Assumptions C14_distinct_names_never_conflict.
+
+(* ---- non-vacuity ---- *)
+Definition ex_schema : schema :=
+  [ mkTdef 1 KLeaf []; mkTdef 2 KLeaf [];
+    mkTdef 10 KObject [(20, TNamed 11); (21, TNamed 12); (22, TNamed 10)];
+    mkTdef 11 KObject [(30, TNamed 1); (31, TNamed 2); (32, TNonNull (TNamed 1)); (22, TNamed 11)];
+    mkTdef 12 KObject [(30, TNamed 1); (31, TNamed 2); (22, TNamed 12)] ].
+Definition fl (id rn nm : N) : fld := mkFld id rn nm [].
+
+(* hypotheses of C14_distinct_names_never_conflict are satisfiable *)
+Example C14_example_distinct :
+  let ss := SelField (fl 1 20 20) SelNil (SelField (fl 2 21 21) SelNil SelNil) in
+  fields_only ss /\ NoDup (rnames ss).
+Proof. cbn. split; auto. repeat constructor; cbn; intuition discriminate. Qed.
+
+(* { a: self { ...F } }  fragment F on T11 { x: f30  self { ...F  x: f31 } }  -- cyclic, conflict found *)
+Example C14_example_cyclic_conflict :
+  spec_verdict ex_schema
+    (mkDoc [(10, SelField (fl 1 22 22) (SelSpread 50 SelNil) SelNil)]
+           [mkFrag 50 11 (SelField (fl 2 40 30) SelNil
+                          (SelField (fl 3 22 22) (SelSpread 50 (SelField (fl 4 40 31) SelNil SelNil)) SelNil))])
+  = VConflict.
+Proof. vm_compute. reflexivity. Qed.
+
+(* fragment F on T11 { self { ...F } self { ...F } }  -- the literal algorithm would not terminate *)
+Example C14_example_cyclic_mergeable :
+  spec_verdict ex_schema
+    (mkDoc [(10, SelField (fl 1 20 20) (SelSpread 50 SelNil) SelNil)]
+           [mkFrag 50 11 (SelField (fl 2 22 22) (SelSpread 50 SelNil)
+                          (SelField (fl 3 22 22) (SelSpread 50 SelNil) SelNil))])
+  = VNo.
+Proof. vm_compute. reflexivity. Qed.
+
+(* different object parents: differing field names are allowed, differing shapes are not *)
+Example C14_example_exclusive :
+  let doc (n2 : N) := mkDoc [(10, SelInline (Some 11) (SelField (fl 1 40 30) SelNil SelNil)
+                                  (SelInline (Some 12) (SelField (fl 2 40 n2) SelNil SelNil) SelNil))] [] in
+  spec_verdict ex_schema (doc 30) = VNo /\ spec_verdict ex_schema (doc 31) = VConflict /\
+  spec_verdict ex_schema
+    (mkDoc [(10, SelInline (Some 11) (SelField (fl 1 40 30) SelNil (SelField (fl 2 40 31) SelNil SelNil)) SelNil)] [])
+  = VConflict.
+Proof. vm_compute. repeat split. Qed.
+
+(* PairSet: an exclusive entry does not answer the non-exclusive query; after re-recording
+   non-exclusively it answers both *)
+Example C14_example_pairset :
+  let s1 := ps_record [] [98] [97] true in
+  let s2 := ps_record s1 [97] [98] false in
+  ps_has s1 [97] [98] true = true /\ ps_has s1 [97] [98] false = false /\
+  ps_has s2 [98] [97] true = true /\ ps_has s2 [98] [97] false = true.
+Proof. vm_compute. repeat split. Qed.
